@@ -24,6 +24,7 @@ type Schedule struct {
 	Park       string   `json:"park"` // begin | after_settings | after_window_update | after_priorities
 	Later      []string `json:"later"`
 	WriterGate bool     `json:"writer_gate"`
+	ResetFirst bool     `json:"reset_first"` // the client resets request 1's stream before the later frames: its handler (parked) outlives the stream
 }
 
 type Obs struct {
@@ -156,6 +157,9 @@ func runSchedule(st *stack.Stack, s Schedule) Obs {
 		wg = arm("capture:headers")
 	}
 	hasReq2 := false
+	if s.ResetFirst {
+		cl.Conn.Write(h2raw.RST(1, 8))
+	}
 	for _, f := range s.Later {
 		if f == "H2" {
 			cl.Conn.Write(headers("H2", 3, t2))
@@ -178,6 +182,10 @@ func runSchedule(st *stack.Stack, s Schedule) Obs {
 		rg.open()
 	}
 	ids := []uint32{1}
+	if s.ResetFirst {
+		ids = nil // the client gave request 1 up; whether and how the proxy answers it is not this schedule's business
+		time.Sleep(100 * time.Millisecond)
+	}
 	if hasReq2 {
 		ids = append(ids, 3)
 	}
